@@ -18,6 +18,8 @@ the Wolfe and dlinmin line searches (only their contract `LSSound`/`LSNoIncrease
 appears, as a hypothesis); box-feasibility of the L-BFGS dog-leg; convergence.
 -/
 import SharkVerif.Lemmas.GradOpt
+import SharkVerif.Gen.OptFields
+import SharkVerif.Lemmas.BFGSList
 import Mathlib.Tactic.Ring
 import Mathlib.Tactic.FieldSimp
 import Mathlib.Tactic.NormNum
@@ -342,5 +344,167 @@ example (e : Env α) (lr mom : α) (x0 : Vec α) (k n : Nat) :
     | succ k ih => obtain ⟨s, hs⟩ := ih; exact ⟨s.step e.o, by simp [Opt.run, hs, Opt.step]⟩
   obtain ⟨s, hs⟩ := this k
   rw [hs]; trivial
+
+/-! ## BFGS with a no-increase line search is monotone — the full statement for one optimizer -/
+section bfgs
+open SharkVerif.BFGS
+
+/-- the objective's gradient has the dimension of its argument -/
+def GradDim (o : Objective Rat) : Prop := ∀ x, (o.grad x).length = x.length
+
+/-- a line search keeps the dimension of point and gradient -/
+def LSDim (ls : LineSearch Rat) : Prop :=
+  ∀ (o : Objective Rat) (p : Vec Rat) (v : Rat) (d g : Vec Rat) (t : Rat), GradDim o →
+    d.length = p.length → g.length = p.length →
+    (ls o p v d g t).point.length = p.length ∧ (ls o p v d g t).gradient.length = p.length
+
+theorem backtracking_LSDim : LSDim backtracking := by
+  intro o p v d g t ho hd hg
+  unfold backtracking
+  simp only
+  split
+  · next t' fnew gnew h =>
+    have hs := backtrackGo_some o p d v _ _ _ _ _ _ h
+    have hl : (Vec.axpy p t' d).length = p.length := by simp [Vec.axpy, hd]
+    exact ⟨hl, by rw [hs.2.1, ho, hl]⟩
+  · exact ⟨rfl, hg⟩
+
+/-- the invariant of a BFGS run: `n × n` symmetric positive definite inverse-Hessian approximation,
+all vectors of dimension `n`, direction `= −H·g`, non-negative initial step length -/
+def BFGSInv (n : Nat) (s : LSOpt Rat) : Prop :=
+  ∃ H, s.model = .bfgs H ∧ ListPD n H ∧ s.best.point.length = n ∧ s.derivative.length = n ∧
+    s.dir.length = n ∧ Vec.dot s.derivative s.dir ≤ 0 ∧ 0 ≤ s.initialStep
+
+theorem foldl_abs_nonneg (l : List Rat) : ∀ acc : Rat, 0 ≤ acc → 0 ≤ (l.map Scalar.abs).foldl (· + ·) acc := by
+  induction l with
+  | nil => intro acc h; simpa using h
+  | cons x xs ih =>
+    intro acc h
+    simp only [List.map_cons, List.foldl_cons]
+    apply ih
+    have : 0 ≤ Scalar.abs x := by
+      unfold Scalar.abs; split
+      · next hx => have : x < 0 := by simpa [Scalar.zero, Scalar.ofRat] using hx
+                   linarith
+      · next hx => have : ¬ x < 0 := by simpa [Scalar.zero, Scalar.ofRat] using hx
+                   linarith
+    linarith
+
+theorem shrink_nonneg (o : Objective Rat) (p d : Vec Rat) : ∀ (k : Nat) (t : Rat), 0 ≤ t →
+    0 ≤ LSOpt.shrinkInitialStep o p d k t := by
+  intro k
+  induction k with
+  | zero => intro t h; exact h
+  | succ k ih =>
+    intro t h
+    unfold LSOpt.shrinkInitialStep
+    split
+    · exact h
+    · apply ih; simp only [Scalar.two, Scalar.ofRat]; positivity
+
+theorem bfgs_init_inv (o : Objective Rat) (ho : GradDim o) (x0 : Vec Rat) (H0 : Mat Rat) :
+    BFGSInv x0.length (LSOpt.init o (.bfgs H0) x0) := by
+  refine ⟨Mat.identity x0.length, rfl, ⟨identity_dim _, by rw [identity_matFn]; exact one_symPD _⟩, rfl, ho x0,
+    by simp [LSOpt.init, Vec.neg, ho x0], direction_descent_neg_gradient _, ?_⟩
+  simp only [LSOpt.init]
+  apply shrink_nonneg
+  have hn : (0 : Rat) ≤ Vec.norm1 (o.grad x0) := by
+    unfold Vec.norm1; exact foldl_abs_nonneg _ _ (by simp [Scalar.zero, Scalar.ofRat])
+  unfold Scalar.min
+  split
+  · simp only [Scalar.one, Scalar.ofRat]; positivity
+  · simp [Scalar.one, Scalar.ofRat]
+
+theorem sub_length (a b : Vec Rat) (n : Nat) (ha : a.length = n) (hb : b.length = n) : (Vec.sub a b).length = n := by
+  simp [Vec.sub, ha, hb]
+
+theorem bfgs_step_inv (ls : LineSearch Rat) (hd : LSDim ls) (o : Objective Rat) (ho : GradDim o) (n : Nat)
+    (s : LSOpt Rat) (h : BFGSInv n s) : BFGSInv n (LSOpt.step ls o s) := by
+  obtain ⟨H, hm, hH, hp, hg, hdir, _, _⟩ := h
+  have hl := hd o s.best.point s.best.value s.dir s.derivative s.initialStep ho (by rw [hdir, hp]) (by rw [hg, hp])
+  unfold LSOpt.step LSOpt.computeSearchDirection
+  simp only [LSOpt.afterLineSearch, hm]
+  set r := ls o s.best.point s.best.value s.dir s.derivative s.initialStep
+  have hrp : r.point.length = n := by rw [hl.1, hp]
+  have hrg : r.gradient.length = n := by rw [hl.2, hp]
+  have hH' := bfgsUpdate_listPD n H (Vec.sub r.gradient s.derivative) (Vec.sub r.point s.best.point) hH
+    (sub_length _ _ n hrg hg) (sub_length _ _ n hrp hp)
+  refine ⟨_, rfl, hH', hrp, hrg, ?_, bfgs_direction_nonascent n _ _ hH' hrg, by simp [Scalar.one, Scalar.ofRat]⟩
+  simp [Vec.neg, mulVec_length, hH'.1.1]
+
+/-- **linesearch_methods_monotone (BFGS).**  For every objective whose gradient has the right dimension,
+every starting point and every line search that keeps dimensions and never increases the value along a
+non-ascent direction (the backtracking line search of the model is one: `backtracking_LSNoIncrease`,
+`backtracking_LSDim`), the values reported by BFGS are non-increasing over the whole run — because the
+inverse-Hessian approximation stays symmetric positive definite (`bfgsUpdate_listPD`), so every direction
+is a non-ascent direction. -/
+theorem linesearch_methods_monotone_bfgs (ls : LineSearch Rat) (hni : LSNoIncrease ls) (hd : LSDim ls)
+    (o : Objective Rat) (ho : GradDim o) (x0 : Vec Rat) (H0 : Mat Rat) (k : Nat) :
+    (iterN (LSOpt.step ls o) (LSOpt.init o (.bfgs H0) x0) (k + 1)).best.value
+      ≤ (iterN (LSOpt.step ls o) (LSOpt.init o (.bfgs H0) x0) k).best.value := by
+  have inv : ∀ k, BFGSInv x0.length (iterN (LSOpt.step ls o) (LSOpt.init o (.bfgs H0) x0) k) := by
+    intro k
+    induction k with
+    | zero => exact bfgs_init_inv o ho x0 H0
+    | succ k ih => exact bfgs_step_inv ls hd o ho _ _ ih
+  obtain ⟨_, _, _, _, _, _, h1, h2⟩ := inv k
+  exact linesearch_methods_monotone_partial ls hni o _ ⟨h1, h2⟩
+
+/-- non-vacuity: the backtracking line search satisfies both contracts -/
+example (o : Objective Rat) (ho : GradDim o) (x0 : Vec Rat) (k : Nat) :
+    (iterN (LSOpt.step backtracking o) (LSOpt.init o (.bfgs []) x0) (k + 1)).best.value
+      ≤ (iterN (LSOpt.step backtracking o) (LSOpt.init o (.bfgs []) x0) k).best.value :=
+  linesearch_methods_monotone_bfgs backtracking backtracking_LSNoIncrease backtracking_LSDim o ho x0 [] k
+end bfgs
+
+/-! ## the archived member lists of the real code
+
+`Gen/OptFields.lean` is regenerated from the C++ `read`/`write` bodies on every run
+(`translate/opt_fields.py`).  The lists of members that `step` reads are written down here from the
+C++ `step` bodies; the theorems say that each of them is archived, that `read` mirrors `write`, and
+that the archived list is exactly the field list of the model's `Saved` structure — which is what
+`resume_same_iterates` quantifies over.  On the unpatched tree (findings F8a–c) they fail. -/
+section fields
+open SharkVerif.Gen.OptFields
+
+def sdStepReads : List String := ["m_learningRate", "m_derivative", "m_momentum", "m_path", "m_best"]
+def adamStepReads : List String :=
+  ["m_beta1", "m_avgGrad", "m_derivative", "m_beta2", "m_secondMoment", "m_counter", "m_eta", "m_epsilon", "m_best"]
+def rpropStepReads : List String :=
+  ["m_parameterSize", "m_best.point", "m_derivative", "m_oldDerivative", "m_maxDelta", "m_increaseFactor", "m_delta",
+   "m_deltaw", "m_minDelta", "m_decreaseFactor", "m_oldValue", "m_best.value"]
+/-- configuration of the receiving instance, deliberately not archived -/
+def rpropConfig : List String := ["m_useFreezing", "m_useBacktracking", "m_useOldValue"]
+def lsStepReads : List String :=
+  ["m_derivative", "m_best", "m_searchDirection", "m_initialStepLength", "m_linesearch", "m_lastDerivative", "m_lastPoint", "m_dimension"]
+def trnStepReads : List String := ["m_derivatives.gradient", "m_derivatives.hessian", "m_delta", "m_best", "m_minImprovementRatio"]
+
+/-- every member `SteepestDescent::step` reads is archived, `read` mirrors `write`, and the archive is
+exactly the field list of `SD.Saved` (path, learningRate, momentum, derivative, best) -/
+theorem sd_step_reads_archived :
+    sdStepReads.all (· ∈ sdWrite) = true ∧ sdWrite = sdRead ∧
+    sdWrite = ["m_path", "m_learningRate", "m_momentum", "m_derivative", "m_best"] := by decide
+
+theorem adam_step_reads_archived : adamStepReads.all (· ∈ adamWrite) = true ∧ adamWrite = adamRead := by decide
+
+/-- `Rprop.Saved` = delta, deltaw, oldDerivative, oldValue, the four factors, best (point, value), derivative
+(+ `m_parameterSize`, which the model derives from the point's length) -/
+theorem rprop_step_reads_archived :
+    rpropStepReads.all (· ∈ rpropWrite) = true ∧ rpropWrite = rpropRead ∧
+    rpropWrite = ["m_delta", "m_deltaw", "m_oldDerivative", "m_oldValue", "m_increaseFactor", "m_decreaseFactor",
+                  "m_maxDelta", "m_minDelta", "m_parameterSize", "m_best.point", "m_best.value", "m_derivative"] := by decide
+
+/-- AbstractLineSearchOptimizer archives all of `LSOpt`'s base fields; the subclasses add exactly their model -/
+theorem ls_step_reads_archived :
+    lsStepReads.all (· ∈ lsbaseWrite) = true ∧ lsbaseWrite = lsbaseRead ∧
+    bfgsWrite = ["base:AbstractLineSearchOptimizer", "m_hessian"] ∧ bfgsWrite = bfgsRead ∧
+    cgWrite = ["base:AbstractLineSearchOptimizer", "m_count"] ∧ cgWrite = cgRead ∧
+    lbfgsWrite = ["base:AbstractLineSearchOptimizer", "m_numHist", "m_bdiag", "m_steps", "m_gradientDifferences"] ∧
+    lbfgsWrite = lbfgsRead ∧ linesearchWrite = linesearchRead := by decide
+
+/-- TrustRegionNewton has a `write`, and it covers what `step` reads (fails on the unpatched tree, F8c) -/
+theorem trn_step_reads_archived :
+    trnHasWrite = true ∧ trnStepReads.all (· ∈ trnWrite) = true ∧ trnWrite = trnRead := by decide
+end fields
 
 end SharkVerif.C10
